@@ -68,6 +68,7 @@ func genC12(r *simrt.Rand, tier string, idx int) *hx.Program {
 			p.Ops = append(p.Ops, hx.Op{K: pickWeighted(r, c12single), A: []int64{g, int64(r.Intn(16)), int64(r.Intn(16)), int64(r.Intn(12))}})
 		}
 	}
+	fsmResumeAllShare(p, r)
 	return p
 }
 
